@@ -1,5 +1,63 @@
 (* Properties.v -- the pinned property theorems and nothing else.  Each is closed by
-   `exact <lemma>` and followed by Print Assumptions.  (Filled in as proofs land.) *)
+   `exact <lemma>` and followed by Print Assumptions; the checks read this file's compile
+   log.  Statements are never weakened: a statement that cannot be proved stays visible
+   under a `_partial` twin (see DESIGN.md section 9). *)
 From Coq Require Import List String Bool.
 Import ListNotations.
-From DI Require Import Syntax Subs Superset Substitute Spec.
+From DI Require Import Syntax Subs Superset Substitute Spec Examples.
+From DI.proofs Require Import Basics SupersetSound SupersetExact.
+
+(* ===================================================================================== *)
+(* C09 -- header generalisation is exact first-order matching                             *)
+(* ===================================================================================== *)
+
+(* Whenever the matcher answers Some s, applying s to the pattern reproduces the instance
+   up to the documented congruence [equivb] -- for every pair of terms, no size bound. *)
+Theorem C09_sound : forall a b s, sup a b = Some s -> equivb (apply s a) b = true.
+Proof. exact sup_sound. Qed.
+Print Assumptions C09_sound.
+
+(* ... and the same for every extension of s (bindings added by sibling sub-terms never
+   disturb a match: each parameter has one value at all of its occurrences). *)
+Theorem C09_sound_stable : forall a b s, sup a b = Some s ->
+  forall s', ext s s' -> equivb (apply s' a) b = true.
+Proof. exact sup_good. Qed.
+Print Assumptions C09_sound_stable.
+
+(* On terms that use none of the congruence's features the congruence is equality:
+   the substitution makes the pattern SYNTACTICALLY equal to the instance. *)
+Theorem C09_sound_exact : forall a b s, sup a b = Some s ->
+  plain (apply s a) = true -> plain b = true -> apply s a = b.
+Proof.
+  intros a b s H P1 P2. exact (equivb_plain_eq _ _ P1 P2 (sup_sound a b s H)).
+Qed.
+Print Assumptions C09_sound_exact.
+
+(* A parameter matched against itself is reported as unchanged. *)
+Theorem C09_identity_at : forall a b p,
+  ty_param a = Some p -> ty_param b = Some p -> sup a b = Some [(p, VIdentity)].
+Proof. exact sup_identity_at. Qed.
+Print Assumptions C09_identity_at.
+
+Theorem C09_identity_at_expr : forall a b p,
+  ex_param a = Some p -> ex_param b = Some p -> sup a b = Some [(p, VIdentity)].
+Proof. exact sup_identity_at_expr. Qed.
+Print Assumptions C09_identity_at_expr.
+
+(* Known finding F5c (the code matches operands of commutative operators crosswise): the
+   strict statement "apply s a = b" is FALSE of the faithful model; witness
+   [u8; 1 + _ŠČ0] vs [u8; N + 1]. *)
+Theorem C09_F5c_refuted : exists a b s,
+  sup a b = Some s /\ has_comm_binary a = true /\
+  equivb (apply s a) b = true /\ term_eqb (apply s a) b = false.
+Proof.
+  exists f5c_pat, f5c_inst, [(pid "0", VExpr (eC "N"))]. vm_compute. repeat split.
+Qed.
+Print Assumptions C09_F5c_refuted.
+
+(* non-vacuity: a non-trivial pair satisfies the hypotheses of C09_sound_exact *)
+Example C09_nonvacuous :
+  sup ex_pat ex_inst = Some ex_subs /\ plain (apply ex_subs ex_pat) = true /\ plain ex_inst = true
+  /\ apply ex_subs ex_pat = ex_inst.
+Proof. vm_compute. repeat split. Qed.
+Print Assumptions C09_nonvacuous.
